@@ -1,12 +1,690 @@
-/-
-  C06 -- netlist text round-trips.  Property theorems only.
--/
-import Lcapy.Model.Parser
+import Lcapy.Proofs.ParserLemmas
 import Lcapy.Spec.Netlist
 namespace Lcapy.C06
-open Lcapy.Parser
+open Lcapy.Parser Lcapy.Spec.Netlist
 
-/-- every grammar line can be interpreted (all parameter names are declared) -/
-theorem table_builds : theGrammar.ok = true := by decide +kernel
+/-- **split_join.**  Joining atomic tokens with a delimiter and splitting again returns the tokens.
+    `atomic` is the tokeniser's own notion of a token: non-empty, no delimiter outside `{}` / `""`,
+    brackets closed, no unmatched `}` (lemmas `plain_atomic`, `braced_atomic` give syntactic
+    sufficient conditions; `arg_format_roundtrip` shows the printer only emits atomic tokens). -/
+theorem split_join (ds : List Char) (sep : Char) (hne : ds ≠ []) (hsep : ds.contains sep = true)
+    (ts : List Str) (h : ∀ t ∈ ts, atomic ds t = true) :
+    split ds (joinWith [sep] ts) = some ts := by
+  have hlast : ds.contains (ds.headD ' ') = true := by
+    cases ds with
+    | nil => exact absurd rfl hne
+    | cons a r => simp
+  unfold split
+  simp only [split_join_aux ds sep (ds.headD ' ') hsep hlast ts h []]
+  simp
+
+example : split Gen.Grammar.delimiters (joinWith [' '] ["R1".toList, "1".toList, "{a + (b, c)}".toList, "\"x y\"".toList])
+    = some ["R1".toList, "1".toList, "{a + (b, c)}".toList, "\"x y\"".toList] := by decide
+
+/-- a token without delimiters, braces or quotes is atomic -/
+theorem plain_atomic (ds : List Char) (t : Str) (hne : t ≠ [])
+    (h : ∀ c ∈ t, ds.contains c = false ∧ c ≠ '{' ∧ c ≠ '"' ∧ c ≠ '}') : atomic ds t = true := by
+  have key : ∀ t : Str, (∀ c ∈ t, ds.contains c = false ∧ c ≠ '{' ∧ c ≠ '"' ∧ c ≠ '}') →
+      scan ds t (none, []) = some (none, []) := by
+    intro t
+    induction t with
+    | nil => intro _; rfl
+    | cons c t ih =>
+      intro h
+      have hc := h c (by simp)
+      have hnd : c ∉ ds := by simpa using hc.1
+      have : scanStep ds (none, []) c = some (none, []) := by
+        simp [scanStep, hnd, hc.2.1, hc.2.2.1, hc.2.2.2]
+      simp only [scan, this]
+      exact ih (fun d hd => h d (by simp [hd]))
+  unfold atomic
+  cases t with
+  | nil => exact absurd rfl hne
+  | cons a b => simp [key (a :: b) h]
+
+/-- brace depth bookkeeping for quote-free text: `}` may not close more than was opened -/
+def braceBal : Str → Nat → Option Nat
+  | [], d => some d
+  | c :: cs, d =>
+    if c == '{' then braceBal cs (d + 1)
+    else if c == '}' then (if d == 0 then none else braceBal cs (d - 1))
+    else braceBal cs d
+
+/-- the scanner state at relative depth `d` inside an outermost `{` -/
+def inBrace (d : Nat) : BSt := (some '}', List.replicate d (some '}') ++ [none])
+
+theorem scan_braceBal (ds : List Char) (body : Str) (hq : ∀ c ∈ body, c ≠ '"') :
+    ∀ d d', braceBal body d = some d' → scan ds body (inBrace d) = some (inBrace d') := by
+  induction body with
+  | nil => intro d d' h; simp [braceBal] at h; subst h; rfl
+  | cons c cs ih =>
+    intro d d' h
+    have hq' : ∀ c ∈ cs, c ≠ '"' := fun x hx => hq x (by simp [hx])
+    have hcq : c ≠ '"' := hq c (by simp)
+    simp only [braceBal] at h
+    by_cases h1 : c = '{'
+    · subst h1
+      simp at h
+      have : scanStep ds (inBrace d) '{' = some (inBrace (d + 1)) := by
+        simp [scanStep, inBrace, List.replicate_succ]
+      simp only [scan, this]
+      exact ih hq' (d + 1) d' h
+    · by_cases h2 : c = '}'
+      · subst h2
+        simp at h
+        cases d with
+        | zero => simp at h
+        | succ k =>
+          simp at h
+          have : scanStep ds (inBrace (k + 1)) '}' = some (inBrace k) := by
+            simp [scanStep, inBrace, List.replicate_succ]
+          simp only [scan, this]
+          exact ih hq' k d' h
+      · simp [h1, h2] at h
+        have : scanStep ds (inBrace d) c = some (inBrace d) := by
+          simp [scanStep, inBrace, h1, h2, hcq]
+        simp only [scan, this]
+        exact ih hq' d d' h
+
+/-- `{body}` with balanced braces and no quotes inside is atomic, whatever delimiters it contains -/
+theorem braced_atomic (ds : List Char) (hb : ds.contains '{' = false) (body : Str)
+    (hq : ∀ c ∈ body, c ≠ '"') (hbal : braceBal body 0 = some 0) :
+    atomic ds ('{' :: (body ++ ['}'])) = true := by
+  have hb' : '{' ∉ ds := by simpa using hb
+  have h1 : scanStep ds (none, []) '{' = some (inBrace 0) := by simp [scanStep, hb', inBrace]
+  have h2 := scan_braceBal ds body hq 0 0 hbal
+  have h3 : scan ds ['}'] (inBrace 0) = some (none, []) := by simp [scan, scanStep, inBrace]
+  have : scan ds ('{' :: (body ++ ['}'])) (none, []) = some (none, []) := by
+    simp only [scan, h1]
+    rw [scan_append, h2]
+    simpa using h3
+  unfold atomic
+  simp [this]
+
+example : atomic Gen.Grammar.delimiters "{f(x, {y}) + 1}".toList = true := by decide
+
+
+/-! ### argument quoting -/
+
+/-- **arg_format_roundtrip.**  For every such value, `Arg.assign` applied to what `_arg_format`
+    printed gives the value back, and the printed text is a single token for `split`.
+    Excluded by `okValue` (and covered by the oracle's hypothesis-boundary stream): values that
+    start with `{` / `"` or are empty (known finding C06-e), unbalanced values, and `a=b`. -/
+theorem arg_format_roundtrip (ds : List Char) (hb : ds.contains '{' = false) (v : Str)
+    (hv : okValue ds v = true) :
+    unquote (argFormat ds v) = v ∧ atomic ds (argFormat ds v) = true := by
+  unfold okValue at hv
+  simp only [Bool.and_eq_true, Bool.not_eq_true', bne_iff_ne, ne_eq] at hv
+  obtain ⟨⟨⟨⟨hne, hh1⟩, hh2⟩, hscan⟩, _⟩ := hv
+  cases v with
+  | nil => simp at hne
+  | cons c rest =>
+    have hc1 : c ≠ '{' := by intro h; subst h; simp at hh1
+    have hc2 : c ≠ '"' := by intro h; subst h; simp at hh2
+    unfold argFormat
+    simp only [List.head?_cons, Option.some.injEq, beq_iff_eq, hc1, ↓reduceIte]
+    by_cases hd : (c :: rest).any ds.contains = true
+    · simp only [hd, ↓reduceIte] at hscan ⊢
+      have hscan' := of_decide_eq_true hscan
+      constructor
+      · simp only [unquote, beq_self_eq_true, Bool.true_or, ↓reduceIte]
+        exact List.dropLast_concat
+      · have hb' : '{' ∉ ds := by simpa using hb
+        have h1 : scanStep ds (none, []) '{' = some (some '}', [none]) := by simp [scanStep, hb']
+        have h3 : scan ds ['}'] (some '}', [none]) = some (none, []) := by simp [scan, scanStep]
+        have : scan ds ('{' :: ((c :: rest) ++ ['}'])) (none, []) = some (none, []) := by
+          simp only [scan, h1]
+          rw [scan_append, hscan']
+          simpa using h3
+        simp only [List.cons_append] at this
+        unfold atomic
+        simp [this]
+    · simp only [hd] at hscan ⊢
+      have hscan' := of_decide_eq_true hscan
+      constructor
+      · simp [unquote, hc1, hc2]
+      · unfold atomic
+        simp [hscan']
+
+example : okValue Gen.Grammar.delimiters "f(x, y) + {a b}".toList = true := by decide
+example : okValue Gen.Grammar.delimiters "10k".toList = true := by decide
+example : okValue Gen.Grammar.delimiters "a} {b".toList = false := by decide
+
+/-! ### the grammar table -/
+
+/-- well-formedness of a rule as the parser and printer rely on it: at most one keyword, only known
+    kinds, every parameter before the keyword is a node, all name / value parameters come after all
+    nodes and keywords, no required argument after an optional one, only arguments are optional,
+    and `pos` points at the keyword. -/
+def ruleWF (r : Rule) : Bool :=
+  (r.params.filter (·.kind == .keyword)).length ≤ 1
+  && r.params.all (·.kind != .other)
+  && (match r.pos with
+      | none => r.params.all (·.kind != .keyword)
+      | some p => (r.params.take p).all (·.kind.isNode) && (r.params[p]?.map (·.kind)) == some .keyword)
+  && (r.params.dropWhile (fun p => !p.kind.isArg)).all (·.kind.isArg)
+  && ((r.params.filter (·.kind.isArg)).dropWhile (fun p => !p.optional)).all (·.optional)
+  && r.params.all (fun p => !p.optional || p.kind.isArg)
+  && !r.type.isEmpty
+
+/-- **table_wf.**  Every line of the checked-out grammar is understood, every rule is well formed,
+    class names are unique, and no delimiter is a bracket character. -/
+theorem table_wf :
+    theGrammar.ok = true ∧ theGrammar.rules.all ruleWF = true
+    ∧ (theGrammar.rules.map (·.classname)).Nodup
+    ∧ theGrammar.delimiters.contains '{' = false ∧ theGrammar.delimiters.contains '}' = false
+    ∧ theGrammar.delimiters.contains '"' = false ∧ theGrammar.delimiters.contains '=' = false
+    ∧ theGrammar.delimiters.contains ' ' = true ∧ theGrammar.delimiters ≠ [] := by
+  refine ⟨by decide +kernel, by decide +kernel, by decide +kernel, by decide +kernel, by decide +kernel,
+    by decide +kernel, by decide +kernel, by decide +kernel, by decide +kernel⟩
+
+/-- the keyword rules of one type never share (position, keyword) -/
+def kwDistinct : List Rule → Bool
+  | [] => true
+  | r :: rs =>
+    (match r.pos with
+     | none => true
+     | some p => rs.all (fun r' => !(r'.pos == some p && (r'.params[p]?.map (fun q => lower q.name)) == (r.params[p]?.map (fun q => lower q.name)))))
+    && kwDistinct rs
+
+/-- a rule does not react to the given fields -/
+def noMatch (fields : List Str) (r : Rule) : Bool :=
+  match r.pos with
+  | none => true
+  | some p =>
+    match fields[p]?, r.params[p]? with
+    | some f, some prm => lower f != lower prm.name
+    | _, _ => true
+
+/-- generic selection lemma: the first rule whose keyword stands at its position is selected -/
+theorem select_spec (fields : List Str) (pre post : List Rule) (r : Rule) (p : Nat) (prm : Param) (f : Str)
+    (hpos : r.pos = some p) (hprm : r.params[p]? = some prm) (hf : fields[p]? = some f)
+    (hkw : lower f = lower prm.name) (hpre : ∀ r' ∈ pre, noMatch fields r' = true) (last : Option Nat) :
+    selectLoop fields (pre ++ r :: post) last = (some (r, prm.name), some p) := by
+  induction pre generalizing last with
+  | nil => simp [selectLoop, hpos, hprm, hf, hkw]
+  | cons r' pre ih =>
+    have h1 := hpre r' (by simp)
+    have ih' := ih (fun x hx => hpre x (by simp [hx]))
+    simp only [List.cons_append, selectLoop]
+    unfold noMatch at h1
+    cases hp' : r'.pos with
+    | none => simpa using ih' none
+    | some p' =>
+      simp only [hp'] at h1 ⊢
+      cases hf' : fields[p']? with
+      | none => simpa using ih' (some p')
+      | some f' =>
+        cases hq' : r'.params[p']? with
+        | none => simpa using ih' (some p')
+        | some q' =>
+          simp only [hf', hq', bne_iff_ne, ne_eq] at h1
+          simp only [beq_iff_eq, h1, ↓reduceIte]
+          exact ih' (some p')
+
+/-- no rule reacts: the default (first) rule is used and the keyword is empty -/
+theorem select_none (fields : List Str) (rs : List Rule) (h : ∀ r ∈ rs, noMatch fields r = true) (last : Option Nat) :
+    (selectLoop fields rs last).1 = none := by
+  induction rs generalizing last with
+  | nil => simp [selectLoop]
+  | cons r rs ih =>
+    have h1 := h r (by simp)
+    have ih' := ih (fun x hx => h x (by simp [hx]))
+    simp only [selectLoop]
+    unfold noMatch at h1
+    cases hp : r.pos with
+    | none => simpa using ih' none
+    | some p =>
+      simp only [hp] at h1 ⊢
+      cases hf : fields[p]? with
+      | none => simpa using ih' (some p)
+      | some f =>
+        cases hq : r.params[p]? with
+        | none => simpa using ih' (some p)
+        | some q =>
+          simp only [hf, hq, bne_iff_ne, ne_eq] at h1
+          simp only [beq_iff_eq, h1, ↓reduceIte]
+          exact ih' (some p)
+
+/-- **rule_select_det.**  In the checked-out table, for every component type, no two keyword rules
+    have the same keyword (case-insensitively) at the same position, so by `select_spec` a keyword
+    standing at its position (and no earlier rule's keyword standing at that rule's position)
+    selects exactly one rule. -/
+theorem rule_select_det :
+    ((theGrammar.rules.map (·.type)).eraseDups.all (fun ty => kwDistinct (rulesOf theGrammar ty))) = true := by
+  decide +kernel
+
+/-! ### rejects -/
+
+/-- too many fields -/
+theorem rejects_too_many (r : Rule) (fields : List Str) (name ns dv : Str)
+    (h : fields.length > r.params.length) : process r fields name ns dv = .error .tooMany := by
+  simp [process, h]
+
+theorem extractNodes_missing (name ns : Str) (ps : List Param) : ∀ (fs : List Str) (i : Nat) (p : Param),
+    fs.length ≤ i → ps[i]? = some p → p.kind.isNode = true → extractNodes name ns ps fs = .error .missingNode := by
+  induction ps with
+  | nil => intro fs i p _ hp; simp at hp
+  | cons q ps ih =>
+    intro fs i p hlen hp hk
+    cases i with
+    | zero =>
+      simp at hp; subst hp
+      have : fs = [] := by cases fs with | nil => rfl | cons a b => simp at hlen
+      subst this
+      simp [extractNodes, hk]
+    | succ j =>
+      simp at hp
+      unfold extractNodes
+      by_cases hq : q.kind.isNode = true
+      · simp only [hq, ↓reduceIte]
+        cases fs with
+        | nil => rfl
+        | cons f fs' =>
+          have := ih fs' j p (by simp at hlen; omega) hp hk
+          simp [this]
+      · simp only [hq]
+        exact ih fs.tail j p (by simp; omega) hp hk
+
+/-- too few nodes: some node / pin parameter of the selected rule has no field -/
+theorem rejects_too_few_nodes (r : Rule) (fields : List Str) (name ns dv : Str) (i : Nat) (p : Param)
+    (hi : fields.length ≤ i) (hp : r.params[i]? = some p) (hk : p.kind.isNode = true) :
+    process r fields name ns dv = .error .missingNode := by
+  have hlt : i < r.params.length := by
+    rcases List.getElem?_eq_some_iff.mp hp with ⟨h, _⟩; exact h
+  have : ¬ fields.length > r.params.length := by omega
+  simp [process, this, extractNodes_missing name ns r.params fields i p hi hp hk]
+
+theorem matchType_none (g : Grammar) (relname : Str) (h : ∀ r ∈ g.rules, r.type.isPrefixOf relname = false) :
+    matchType g relname = none := by
+  unfold matchType
+  have : ∀ (tys : List Str), (∀ t ∈ tys, t.isPrefixOf relname = false) →
+      tys.foldl (fun best ty =>
+        if ty.isPrefixOf relname then
+          match best with
+          | none => some ty
+          | some b => if b.length < ty.length then some ty else some b
+        else best) none = none := by
+    intro tys
+    induction tys with
+    | nil => intro _; rfl
+    | cons t ts ih =>
+      intro ht
+      simp only [List.foldl_cons, ht t (by simp)]
+      exact ih (fun x hx => ht x (by simp [hx]))
+  apply this
+  intro t ht
+  simp only [List.mem_map] at ht
+  obtain ⟨r, hr, rfl⟩ := ht
+  exact h r hr
+
+/-- unknown component type: the name starts with no type of the grammar -/
+theorem rejects_unknown_type (g : Grammar) (used : List Str) (ns string name0 : Str) (fields : List Str)
+    (hok : g.ok = true) (hd : isDirective g (strip string) = false)
+    (hs : split g.delimiters (splitFirst ';' (strip string)).1 = some (name0 :: fields))
+    (hm : ∀ r ∈ g.rules, r.type.isPrefixOf ((splitOn '.' name0).getLastD []) = false) :
+    parse g used ns string = .error .unknownCpt := by
+  have hm' := matchType_none g _ hm
+  simp only [List.getLastD_eq_getLast?] at hm'
+  unfold parse
+  simp only [hok, hd]
+  simp [hs, hm']
+
+theorem argIndex_none (args : List Arg) (k : Str) (h : ∀ a ∈ args, lower a.name ≠ lower k) : argIndex args k = none := by
+  unfold argIndex
+  have : args.findIdx (fun a => lower a.name == lower k) = args.length := by
+    apply List.findIdx_eq_length.mpr
+    intro a ha
+    simpa using h a ha
+  simp [this]
+
+/-- unknown named parameter -/
+theorem rejects_unknown_named (args : List Arg) (f k v : Str) (rest fs : List Str)
+    (hs : splitEq f = k :: v :: rest) (hk : ∀ a ∈ args, lower a.name ≠ lower k) :
+    assignNamed args (f :: fs) = .error .unknownParam := by
+  simp [assignNamed, hs, argIndex_none args k hk]
+
+/-- a positional value after a named one -/
+theorem rejects_value_after_named (args : List Arg) (f : Str) (fs : List Str)
+    (hs : (splitEq f).length < 2) : assignNamed args (f :: fs) = .error .valueAfterNamed := by
+  unfold assignNamed
+  split
+  · rename_i k v rest heq
+    rw [heq] at hs
+    simp only [List.length_cons] at hs
+    omega
+  · rfl
+
+/-! unbalanced braces -/
+
+/-- states of the scanner: `close_bracket` is never `{` -/
+def closeOK (s : St) : Prop := s.close ≠ some '{' ∧ ∀ x ∈ s.stack, x ≠ some '{'
+
+theorem closeOK_step (ds : List Char) (s : St) (c : Char) (h : closeOK s) : closeOK (step ds s c) := by
+  obtain ⟨h1, h2⟩ := h
+  unfold step
+  split
+  · split <;> exact ⟨h1, h2⟩
+  · split
+    · cases hst : s.stack with
+      | nil => exact ⟨h1, by simp⟩
+      | cons x r =>
+        simp only
+        rw [hst] at h2
+        exact ⟨h2 x (by simp), fun y hy => h2 y (by simp [hy])⟩
+    · split
+      · exact ⟨by simp, fun y hy => by
+          simp at hy
+          rcases hy with rfl | hy
+          · exact h1
+          · exact h2 y hy⟩
+      · split
+        · exact ⟨by simp, fun y hy => by
+            simp at hy
+            rcases hy with rfl | hy
+            · exact h1
+            · exact h2 y hy⟩
+        · split <;> exact ⟨h1, h2⟩
+
+theorem closeOK_fold (ds : List Char) (a : Str) (s : St) (h : closeOK s) : closeOK (a.foldl (step ds) s) := by
+  induction a generalizing s with
+  | nil => exact h
+  | cons c a ih => exact ih _ (closeOK_step ds s c h)
+
+/-- inside an open `{`: stays there as long as no `}` or `"` is read -/
+theorem open_brace_stays (ds : List Char) (b : Str) (hb : ∀ c ∈ b, c ≠ '}' ∧ c ≠ '"') (s : St)
+    (hc : s.close = some '}') (hs : s.stack ≠ []) :
+    (b.foldl (step ds) s).close = some '}' ∧ (b.foldl (step ds) s).stack ≠ [] := by
+  induction b generalizing s with
+  | nil => exact ⟨hc, hs⟩
+  | cons c b ih =>
+    have hcb := hb c (by simp)
+    have hne : s.stack.isEmpty = false := by
+      cases hst : s.stack with
+      | nil => exact absurd hst hs
+      | cons _ _ => rfl
+    have hstep : (step ds s c).close = some '}' ∧ (step ds s c).stack ≠ [] := by
+      unfold step
+      simp only [hne, Bool.and_false, Bool.false_eq_true, ↓reduceIte, hc]
+      have : (some c == some '}') = false := by simp [hcb.1]
+      simp only [this, Bool.false_eq_true, ↓reduceIte]
+      by_cases h1 : c = '{'
+      · subst h1; simp
+      · have : (c == '{') = false := by simp [h1]
+        simp only [this, Bool.false_eq_true, ↓reduceIte]
+        have : (c == '"') = false := by simp [hcb.2]
+        simp only [this, Bool.false_eq_true, ↓reduceIte]
+        simp [hs]
+    exact ih (fun x hx => hb x (by simp [hx])) _ hstep.1 hstep.2
+
+/-- unbalanced braces: a `{` that is never closed (no `}` and no `"` after it) makes `split` fail,
+    whatever precedes it -/
+theorem rejects_unclosed_brace (ds : List Char) (a b : Str) (hb : ∀ c ∈ b, c ≠ '}' ∧ c ≠ '"')
+    (hd1 : ds.headD ' ' ≠ '}') (hd2 : ds.headD ' ' ≠ '"') (hd3 : ds.contains '{' = false) :
+    split ds (a ++ '{' :: b) = none := by
+  generalize hd : ds.headD ' ' = d at hd1 hd2
+  have key : (((a ++ '{' :: b) ++ [d]).foldl (step ds) ⟨[], [], none, [], false⟩).close = some '}' := by
+    simp only [List.append_assoc, List.cons_append, List.foldl_append, List.foldl_cons]
+    generalize hs0 : a.foldl (step ds) ⟨[], [], none, [], false⟩ = s0
+    have hok : closeOK s0 := by
+      rw [← hs0]; exact closeOK_fold ds a _ ⟨by simp, by simp⟩
+    have hb' : '{' ∉ ds := by simpa using hd3
+    have h1 : (step ds s0 '{').close = some '}' ∧ (step ds s0 '{').stack ≠ [] := by
+      unfold step
+      have : (some '{' == s0.close) = false := by
+        have := hok.1
+        cases hcl : s0.close with
+        | none => simp
+        | some x => simp; intro h; subst h; exact this hcl
+      simp [hb', this]
+    have h2 := open_brace_stays ds (b ++ [d]) (by
+        intro c hc
+        simp only [List.mem_append, List.mem_singleton] at hc
+        rcases hc with hc | hc
+        · exact hb c hc
+        · subst hc; exact ⟨hd1, hd2⟩) _ h1.1 h1.2
+    simp only [List.foldl_append, List.foldl_cons, List.foldl_nil] at h2 ⊢
+    exact h2.1
+  unfold split
+  simp only [hd, key, Option.isSome_some, Bool.true_or, ↓reduceIte]
+
+example : split Gen.Grammar.delimiters "R1 1 2 {a + b".toList = none := by decide
+
+/-- an unmatched `}` outside any bracket makes `split` fail (scanner level: the token is not atomic) -/
+theorem stray_close_not_atomic (ds : List Char) (a b : Str) (ha : scan ds a (none, []) = some (none, [])) :
+    atomic ds (a ++ '}' :: b) = false := by
+  unfold atomic
+  have : scan ds (a ++ '}' :: b) (none, []) = none := by
+    rw [scan_append, ha]
+    simp [scan, scanStep]
+  simp [this]
+
+/-! ### engineering suffixes -/
+
+/-- the suffix table of the checked-out `value_parser` is the documented one -/
+theorem suffix_table : Gen.Grammar.suffixSrc =
+    [('f', -15), ('p', -12), ('n', -9), ('u', -6), ('m', -3), ('k', 3), ('M', 6), ('G', 9), ('T', 12)] := by
+  decide
+
+/-- **suffix_value.**  `<decimal><suffix>` denotes `decimal × 10^k` for every suffix of the table … -/
+theorem suffix_value (suf : List (Char × Int)) (m : Str) (c : Char) (e : Int) (q : Rat)
+    (hm : parseDecimal m = some q) (hne : m ≠ [])
+    (hc : suf.find? (fun p => p.1 == c) = some (c, e)) (hK : c ≠ 'K') (hg : c ≠ 'g') :
+    valueParser suf (m ++ [c]) = .num (q * pow10 e) := by
+  have hlen : ¬ (m ++ [c]).length < 2 := by
+    cases m with
+    | nil => exact absurd rfl hne
+    | cons a b => simp
+  have h1 : endsWith (m ++ [c]) ['M','e','g'] = false := by
+    simp [endsWith, List.isPrefixOf, hg.symm]
+  have h2 : endsWith (m ++ [c]) ['K'] = false := by
+    simp [endsWith, List.isPrefixOf, hK.symm]
+  unfold valueParser
+  simp only [hlen, ↓reduceIte, h1, h2, Bool.false_eq_true]
+  simp [hm, hc]
+
+/-- … `K` is an alias of `k` … -/
+theorem suffix_value_K (suf : List (Char × Int)) (m : Str) (e : Int) (q : Rat)
+    (hm : parseDecimal m = some q) (hne : m ≠ [])
+    (hc : suf.find? (fun p => p.1 == 'k') = some ('k', e)) :
+    valueParser suf (m ++ ['K']) = .num (q * pow10 e) := by
+  have hlen : ¬ (m ++ ['K']).length < 2 := by
+    cases m with
+    | nil => exact absurd rfl hne
+    | cons a b => simp
+  have h1 : endsWith (m ++ ['K']) ['M','e','g'] = false := by
+    simp [endsWith, List.isPrefixOf]
+  have h2 : endsWith (m ++ ['K']) ['K'] = true := by
+    simp [endsWith, List.isPrefixOf]
+  unfold valueParser
+  simp only [hlen, ↓reduceIte, h1, h2, Bool.false_eq_true]
+  simp [hm, hc]
+
+/-- … and `Meg` of `M` (this is the statement that failed before fix 40c4115: the code kept `MM`). -/
+theorem suffix_value_Meg (suf : List (Char × Int)) (m : Str) (e : Int) (q : Rat)
+    (hm : parseDecimal m = some q)
+    (hc : suf.find? (fun p => p.1 == 'M') = some ('M', e)) :
+    valueParser suf (m ++ ['M','e','g']) = .num (q * pow10 e) := by
+  have hlen : ¬ (m ++ ['M','e','g']).length < 2 := by simp
+  have h1 : endsWith (m ++ ['M','e','g']) ['M','e','g'] = true := by
+    simp [endsWith, List.isPrefixOf]
+  have h3 : (m ++ ['M','e','g']).take ((m ++ ['M','e','g']).length - 3) = m := by
+    simp
+  unfold valueParser
+  simp only [hlen, ↓reduceIte, h1, h3]
+  simp [hm, hc]
+
+example : parseDecimal "4.7".toList = some (47 / 10 : Rat) := by decide +kernel
+
+/-! ### printing is invariant under the spec's equivalence; idempotence -/
+
+/-- the printer writes an absent non-final optional value as `0`: printing does not distinguish the
+    two argument lists that the spec identifies -/
+theorem fmtArgs_normArgs (ds : List Char) (a : List (Option Str)) : fmtArgs ds (normArgs a) = fmtArgs ds a := by
+  induction a with
+  | nil => rfl
+  | cons x rest ih =>
+    cases rest with
+    | nil => cases x <;> rfl
+    | cons y rest' =>
+      cases x with
+      | none =>
+        simp only [normArgs]
+        cases hn : normArgs (y :: rest') with
+        | nil => cases y <;> cases rest' <;> simp [normArgs] at hn
+        | cons z zs =>
+          have : fmtArgs ds (some ['0'] :: z :: zs) = argFormat ds ['0'] :: fmtArgs ds (z :: zs) := by simp [fmtArgs]
+          rw [this, ← hn, ih]
+          simp [fmtArgs]
+      | some v =>
+        simp only [normArgs]
+        cases hn : normArgs (y :: rest') with
+        | nil => cases y <;> cases rest' <;> simp [normArgs] at hn
+        | cons z zs =>
+          have : fmtArgs ds (some v :: z :: zs) = argFormat ds v :: fmtArgs ds (z :: zs) := by simp [fmtArgs]
+          rw [this, ← hn, ih]
+          simp [fmtArgs]
+
+/-- normalising twice is normalising once -/
+theorem normArgs_idem (a : List (Option Str)) : normArgs (normArgs a) = normArgs a := by
+  induction a with
+  | nil => rfl
+  | cons x rest ih =>
+    cases rest with
+    | nil => rfl
+    | cons y rest' =>
+      cases x with
+      | none =>
+        simp only [normArgs]
+        cases hn : normArgs (y :: rest') with
+        | nil => cases y <;> cases rest' <;> simp [normArgs] at hn
+        | cons z zs => rw [hn] at ih; simp [normArgs, ih]
+      | some v =>
+        simp only [normArgs]
+        cases hn : normArgs (y :: rest') with
+        | nil => cases y <;> cases rest' <;> simp [normArgs] at hn
+        | cons z zs => rw [hn] at ih; simp [normArgs, ih]
+
+/-- **print_idempotent (component level).**  If re-parsing the printed component gives a component
+    that the spec identifies with the original up to the argument normalisation (same name, nodes,
+    keyword, option string, `normArgs`-equal arguments), then printing it again gives the same text. -/
+theorem print_idempotent (g : Grammar) (c c' : Cpt)
+    (hname : c'.name = c.name) (hty : c'.ctype = c.ctype) (hnodes : c'.nodes = c.nodes)
+    (hargs : c'.args = normArgs c.args) (hkp : c'.kwpos = c.kwpos) (hkw : c'.kw = c.kw)
+    (hopts : c'.opts = c.opts) (hstr : c'.string = c.string) :
+    printCpt g c' = printCpt g c := by
+  unfold printCpt netTokens
+  simp only [hname, hty, hnodes, hargs, hkp, hkw, hopts, hstr, fmtArgs_normArgs]
+
+/-! ### print → parse, argument level (generic in the rule) -/
+
+/-- a `None` in final position is only printable (by omission) if the parameter has no default -/
+def trailingNoneOK : List Param → List (Option Str) → Bool
+  | [p], [none] => p.default.isNone
+  | _ :: ps, _ :: v :: vs => trailingNoneOK ps (v :: vs)
+  | _, _ => true
+
+theorem okValue_zero (ds : List Char) (h0 : ds.contains '0' = false) : okValue ds ['0'] = true := by
+  have h0' : '0' ∉ ds := by simpa using h0
+  simp [okValue, argFormat, h0', scan, scanStep, split, step]
+
+theorem assign_fresh (ds : List Char) (hb : ds.contains '{' = false) (p : Param) (dv v : Str)
+    (hv : okValue ds v = true) :
+    (Arg.init p dv).assign (argFormat ds v) = .ok { name := p.name, value := some v, assigned := true } := by
+  have := (arg_format_roundtrip ds hb v hv).1
+  simp [Arg.assign, Arg.init, this]
+
+theorem not_named (ds : List Char) (v : Str) (hv : okValue ds v = true) : ¬ (splitEq (argFormat ds v)).length > 1 := by
+  unfold okValue at hv
+  simp only [Bool.and_eq_true, decide_eq_true_eq] at hv
+  simp [splitEq, hv.2]
+
+/-- **print_parse (arguments).**  For any parameter list `aps` (the name / value parameters of a rule)
+    and any values `vals` for them, all printable (`okValue`), a final absent value only where the
+    parameter has no default: reading the printed arguments positionally returns `normArgs vals`,
+    i.e. the same values with absent non-final ones read as 0, and consumes every field. -/
+theorem print_parse_args (ds : List Char) (hb : ds.contains '{' = false) (h0 : ds.contains '0' = false) (dv : Str) :
+    ∀ (aps : List Param) (vals : List (Option Str)), vals.length = aps.length →
+      (∀ v, some v ∈ vals → okValue ds v = true) → trailingNoneOK aps vals = true →
+      ∃ args, assignPos (aps.map (Arg.init · dv)) (fmtArgs ds vals) = .ok (args, [])
+        ∧ args.map (·.value) = normArgs vals := by
+  intro aps
+  induction aps with
+  | nil =>
+    intro vals hlen _ _
+    have : vals = [] := by cases vals with | nil => rfl | cons a b => simp at hlen
+    subst this
+    exact ⟨[], by simp [fmtArgs, assignPos], rfl⟩
+  | cons p ps ih =>
+    intro vals hlen hok htr
+    cases vals with
+    | nil => simp at hlen
+    | cons x rest =>
+      cases rest with
+      | nil =>
+        have hps : ps = [] := by
+          cases ps with | nil => rfl | cons a b => simp at hlen
+        subst hps
+        cases x with
+        | none =>
+          simp [trailingNoneOK] at htr
+          refine ⟨[Arg.init p dv], by simp [fmtArgs, assignPos], ?_⟩
+          simp [normArgs, Arg.init, htr]
+        | some v =>
+          have hv := hok v (by simp)
+          refine ⟨[{ name := p.name, value := some v, assigned := true }], ?_, by simp [normArgs]⟩
+          have hn := not_named ds v hv
+          simp only [fmtArgs, List.map_cons, List.map_nil, assignPos, hn, ↓reduceIte, assign_fresh ds hb p dv v hv]
+      | cons y rest' =>
+        have hlen' : (y :: rest').length = ps.length := by simpa using hlen
+        cases ps with
+        | nil => simp at hlen'
+        | cons q ps' =>
+          have htr' : trailingNoneOK (q :: ps') (y :: rest') = true := by simpa [trailingNoneOK] using htr
+          obtain ⟨args, hassign, hvals⟩ := ih (y :: rest') hlen' (fun v hv => hok v (by simp [hv])) htr'
+          have hnn : normArgs (y :: rest') ≠ [] := by
+            cases y <;> cases rest' <;> simp [normArgs]
+          cases x with
+          | none =>
+            have hz := okValue_zero ds h0
+            refine ⟨{ name := p.name, value := some ['0'], assigned := true } :: args, ?_, ?_⟩
+            · have hn := not_named ds ['0'] hz
+              have hf : fmtArgs ds (none :: y :: rest') = argFormat ds ['0'] :: fmtArgs ds (y :: rest') := by simp [fmtArgs]
+              rw [hf]
+              simp only [List.map_cons, assignPos, hn, ↓reduceIte, assign_fresh ds hb p dv ['0'] hz]
+              simp only [List.map_cons] at hassign
+              rw [hassign]
+            · simp only [List.map_cons, hvals]
+              cases hn2 : normArgs (y :: rest') with
+              | nil => exact absurd hn2 hnn
+              | cons z zs => simp [normArgs, hn2]
+          | some v =>
+            have hv := hok v (by simp)
+            refine ⟨{ name := p.name, value := some v, assigned := true } :: args, ?_, ?_⟩
+            · have hn := not_named ds v hv
+              have hf : fmtArgs ds (some v :: y :: rest') = argFormat ds v :: fmtArgs ds (y :: rest') := by simp [fmtArgs]
+              rw [hf]
+              simp only [List.map_cons, assignPos, hn, ↓reduceIte, assign_fresh ds hb p dv v hv]
+              simp only [List.map_cons] at hassign
+              rw [hassign]
+            · simp only [List.map_cons, hvals]
+              cases hn2 : normArgs (y :: rest') with
+              | nil => exact absurd hn2 hnn
+              | cons z zs => simp [normArgs, hn2]
+
+example : trailingNoneOK [⟨['V'], .value, true, some ['n','a','m','e']⟩, ⟨['I','C'], .value, true, none⟩] [some ['3'], none] = true := by decide
+
+/-- the elided default: when the sole printed argument was dropped because it equals the component
+    name, the parser's default restores it **provided the parameter's default is `name`**
+    (`SW`: default `0` -- known finding C06-b; covered by the oracle's `value-equals-name` stream) -/
+theorem elided_default_restored (p : Param) (relname : Str) (hd : p.default = some ['n','a','m','e']) :
+    (Arg.init p relname).value = some relname := by
+  simp [Arg.init, hd]
+
+/-- full-strength statement that does NOT hold for the current code (kept as documentation):
+    `∀ p, (Arg.init p relname).value = some relname` -- false for `[Time=0]`. -/
+theorem elided_default_partial_counterexample :
+    (Arg.init ⟨['T','i','m','e'], .value, true, some ['0']⟩ ['S','W','1']).value ≠ some ['S','W','1'] := by
+  decide
 
 end Lcapy.C06
